@@ -6,6 +6,7 @@ driver compares their id tables), the uuid4 stream, the wall clock, argument / d
 construction route.  The exactness oracle (independent RFC 8785 writer + SHA-1 UUIDv5) rides along.
 """
 import copy
+import datetime as _dt
 import json
 import random
 
@@ -40,6 +41,33 @@ OBS_D_DEFAULTS = {'channel': 7, 'enabled': False}
 TS_POOL = ['2016-01-01T00:00:00Z', '2016-06-19T14:20:40.5Z', '2038-01-19T03:14:08.000001Z', '1970-01-01T00:00:00Z', '2016-01-01T00:00:00.123Z']
 TS_POOL_MS = [t for t in TS_POOL if t != '2038-01-19T03:14:08.000001Z']
 TYPES = sorted(CONTRIB)
+
+
+class _SimDST(_dt.tzinfo):
+    """ONE tzinfo object whose UTC offset depends on the date (a zone with daylight saving time): +02:00 from April to
+    September, +01:00 otherwise - like zoneinfo / dateutil zones, unlike pytz's per-offset instances."""
+
+    def utcoffset(self, d):
+        return _dt.timedelta(hours=2 if 4 <= d.month <= 9 else 1)
+
+    def dst(self, d):
+        return _dt.timedelta(hours=1 if 4 <= d.month <= 9 else 0)
+
+    def tzname(self, d):
+        return 'SIM'
+
+
+SIM_DST = _SimDST()
+
+
+def as_local_datetime(text):
+    """The instant `text` names, as an aware datetime in the SIM_DST zone."""
+    from .. import tsparse
+    utc = _dt.datetime(1970, 1, 1) + _dt.timedelta(microseconds=tsparse.us_of(text))
+    local = utc + _dt.timedelta(hours=2 if 4 <= utc.month <= 9 else 1)
+    if (4 <= local.month <= 9) != (4 <= utc.month <= 9):
+        return None         # within hours of the switch: the wall-clock reading would be ambiguous
+    return local.replace(tzinfo=SIM_DST)
 
 
 def pick_str(rng):
@@ -278,7 +306,7 @@ class C06(Profile):
     owns_registries = True
     tiers = {'quick': 4000, 'thorough': 200000}
     wall_cap = {'quick': 900, 'thorough': 5 * 3600}
-    probes = ['defaulted_contributing_property', 'construction_refused_during_id_generation', 'utf16_vs_codepoint_member_order', 'disturbance_between_constructions', 'no_contributing_property_v4', 'hash_preference_applied', 'non_preferred_single_hash', 'non_preferred_several_hashes_first_wins', 'extension_with_float', 'custom_observable',
+    probes = ['timestamp_as_datetime_in_dst_zone', 'defaulted_contributing_property', 'construction_refused_during_id_generation', 'utf16_vs_codepoint_member_order', 'disturbance_between_constructions', 'no_contributing_property_v4', 'hash_preference_applied', 'non_preferred_single_hash', 'non_preferred_several_hashes_first_wins', 'extension_with_float', 'custom_observable',
               'equal_contrib_different_noncontrib', 'near_miss_different_id', 'string_needing_escape', 'astral_or_bmp_boundary',
               'route_bundle_member', 'route_memory_store', 'uuid4_stream_differs', 'hash_names_respelled', 'falsy_contributing_value']
     rule = ('plans: 6-14 items (a 2.1 observable type incl. two registered custom observables, contributing and non-contributing values with '
@@ -480,6 +508,14 @@ class C06(Profile):
         cls = s.registry.class_for_type(t, '2.1', 'observables')
         route = op['route']
         allow = t.startswith('x-')
+        if route.startswith('kwargs') and op.get('perm', 0) % 3 == 0:
+            # timestamps handed over as aware datetime objects of a zone with daylight saving time (same instants)
+            for k2 in ('start', 'end', 'seen_ms', 'seen_any', 'date'):
+                if isinstance(props.get(k2), str):
+                    loc = as_local_datetime(props[k2])
+                    if loc is not None:
+                        props[k2] = loc
+                        world.probe('timestamp_as_datetime_in_dst_zone')
         if route.startswith('kwargs'):
             keys = list(props)
             if route == 'kwargs_reversed':
